@@ -12,6 +12,78 @@ import vlib
 PID = "C02"
 
 
+def table_selection(wd, v):
+    """The analyzers look an observation up in the table of ITS kind: a SYN in [tcp:request], a SYN+ACK in [tcp:response], a request in
+    [http:request], a response in [http:response] -- IPv4 and IPv6, sequential and parallel front ends and the unified analyzer.
+    A database is built in which every observation of the trace is a signature of BOTH tables of its protocol, under a label that
+    names the table; the label reported must name the right one (TcpExtract!TableOf / Http1: kind)."""
+    from props import c10
+    a4, b4 = (10, 5, 0, 1), (10, 5, 0, 2)
+    a6, b6 = bytes([0x20, 1, 0xd, 0xb8] + [0] * 11 + [1]), bytes([0x20, 1, 0xd, 0xb8] + [0] * 11 + [2])
+    so = b"\x02\x04\x05\xb4\x04\x02\x08\x0a\x00\x00\x10\x00\x00\x00\x00\x00\x01\x03\x03\x07"
+    R = b"GET /t HTTP/1.1\r\nHost: t.example\r\nUser-Agent: tablesel/1.0\r\n\r\n"
+    S = b"HTTP/1.1 200 OK\r\nServer: tablesel-srv\r\n\r\nok"
+    frames = [c10.frame(a4, b4, 43000, 80, 100, 0, 0x02, opts=so, ipid=11), c10.frame(b4, a4, 80, 43000, 500, 101, 0x12, opts=so, ipid=12, ttl=128),
+              c10.frame(a4, b4, 43000, 80, 101, 501, 0x18, R, ipid=13), c10.frame(b4, a4, 80, 43000, 501, 101 + len(R), 0x18, S, ipid=14, ttl=128),
+              c10.frame6(a6, b6, 43001, 80, 100, 0, 0x02, opts=so), c10.frame6(b6, a6, 80, 43001, 500, 101, 0x12, opts=so, hlim=128),
+              c10.frame6(a6, b6, 43001, 80, 101, 501, 0x18, R), c10.frame6(b6, a6, 80, 43001, 501, 101 + len(R), 0x18, S, hlim=128)]
+    hexes = [f.hex() for f in frames]
+    # 1. what the analyzers observe (no matcher)
+    req = os.path.join(wd, "tsel0.req")
+    vlib.write_ndjson(req, [{"id": "t", "crate": "tcp", "frames": hexes, "matcher": False, "cfg": {}}, {"id": "h", "crate": "http", "frames": hexes, "matcher": False, "cfg": {}}])
+    out = os.path.join(wd, "tsel0.out")
+    vlib.run_hv("ana", req, out, env={"HV_PCAP_DIR": os.path.join(wd, "pcap")})
+    tcp_texts, http_texts = set(), set()
+    for o in vlib.read_ndjson(out):
+        for r_ in o.get("results", []):
+            if o["id"] == "t":
+                for k in ("syn", "syn_ack"):
+                    if r_.get(k):
+                        t = r_[k]["text"].split(":")
+                        t[1] = t[1].split("+")[0]                  # the signature names the initial TTL
+                        tcp_texts.add(":".join(t))
+            else:
+                for k in ("req", "resp"):
+                    if r_.get(k):
+                        http_texts.add(r_[k]["sig"]["text"])
+    if len(tcp_texts) < 4 or len(http_texts) < 2:
+        raise vlib.ToolError("table selection: expected 4 TCP and 2 HTTP observations, got %d / %d" % (len(tcp_texts), len(http_texts)))
+    db = ["classes = win,unix,other", "[mtu]", "label = Ethernet", "sig = 1500"]
+    for sec, lab, texts in (("tcp:request", "s:unix:TcpRequestTable:x", tcp_texts), ("tcp:response", "s:unix:TcpResponseTable:x", tcp_texts),
+                            ("http:request", "s:!:HttpRequestTable:x", http_texts), ("http:response", "s:!:HttpResponseTable:x", http_texts)):
+        db += ["[%s]" % sec, "label = " + lab] + ["sig = " + t for t in sorted(texts)]
+    dbtext = "\n".join(db) + "\n"
+    # 2. with that database, through every front end
+    lines = []
+    for crate in ("tcp", "tcp_par", "http", "http_par", "uni"):
+        lines.append({"id": crate, "crate": crate, "frames": hexes, "matcher": True, "cfg": {}, "db": dbtext, "parallel": {"workers": 2, "queue": 64, "batch": 4, "timeout_ms": 5}})
+    req = os.path.join(wd, "tsel1.req")
+    vlib.write_ndjson(req, lines)
+    out = os.path.join(wd, "tsel1.out")
+    vlib.run_hv("ana", req, out, env={"HV_PCAP_DIR": os.path.join(wd, "pcap")})
+    want = {"syn": "TcpRequestTable", "syn_ack": "TcpResponseTable", "req": "HttpRequestTable", "resp": "HttpResponseTable"}
+    for o in vlib.read_ndjson(out):
+        if "db_error" in o or "panic" in o:
+            raise vlib.ToolError("table selection: %s" % (o.get("db_error") or o.get("panic")))
+        seen = {}
+        for r_ in o["results"]:
+            for k, w in want.items():
+                x = r_.get(k)
+                if not x:
+                    continue
+                lab = x.get("os") or x.get("browser") or x.get("server")
+                name = lab["name"] if isinstance(lab, dict) else None
+                fam = "v6" if ":" in x["src"].split("|")[0] else "v4"
+                seen[(k, fam)] = name
+                if name != w:
+                    v.violation({"part": "table selection", "front_end": o["id"], "kind": k, "address_family": fam, "source": x["src"], "expected_label": w, "reported_label": name,
+                                 "database": dbtext})
+        proto = ("syn", "syn_ack") if o["id"].startswith("tcp") else ("req", "resp") if o["id"].startswith("http") else tuple(want)
+        missing = [(k, fam) for k in proto for fam in ("v4", "v6") if (k, fam) not in seen]
+        if missing:
+            v.violation({"part": "table selection", "front_end": o["id"], "observed": "no result for %s" % missing, "database": dbtext})
+
+
 def run(tier, v):
     wd = vlib.workdir(PID)
     vlib.build_harness()
@@ -87,6 +159,7 @@ def run(tier, v):
                 if len(samples) < 2 and r["rep"] > 0 and sum(1 for d in r["dists"] if d >= 0) > 1:
                     samples.append({"database": m["db"] or "<bundled p0f.fp> " + m["table"], "observation": m["obs"][k], "dists": r["dists"][:12], "reported_entry": r["rep"], "quality_x100": r["rq"]})
     r2 = vlib.tlc("TV_C02", pid=PID, workers=8, env={"TRACE": trace}, timeout=3000, heap="12g")
+    table_selection(wd, v)
 
     if tier == "thorough":
         def mut(rows):
